@@ -4,7 +4,6 @@ import (
 	"fmt"
 	"os"
 	"path/filepath"
-	"sort"
 	"strings"
 
 	"verif/harness/core"
@@ -106,13 +105,13 @@ func showTable(t *pgdump.TableDump) string {
 		strings.Join(cols, ","), t.RowCount, showRows(t.Rows))
 }
 
-// tables in filenode order (stable): the order itself is checked by the C11 families
+// tables in the order of the result: the Spec's order is filenode order, which the tool emits since fixes/cluster/01
+// (no sorting here any more: the comparison is exact)
 func showDb(d *pgdump.DatabaseDump) string {
 	ts := make([]*pgdump.TableDump, len(d.Tables))
 	for i := range d.Tables {
 		ts[i] = &d.Tables[i]
 	}
-	sort.SliceStable(ts, func(i, j int) bool { return ts[i].Filenode < ts[j].Filenode })
 	parts := make([]string, len(ts))
 	for i, t := range ts {
 		parts[i] = showTable(t)
